@@ -40,7 +40,10 @@
 #include "celeritas/track/SimTrackView.hh"
 
 using namespace celeritas;
-using namespace celeritas::optical;
+namespace opt = celeritas::optical;
+using opt::CerenkovDndxCalculator; using opt::CerenkovGenerator; using opt::CerenkovParams;
+using opt::GeneratorDistributionData; using opt::ScintillationGenerator; using opt::ScintillationParams;
+using opt::TrackInitializer;
 using verif::hex;
 using verif::rd;
 
@@ -98,7 +101,7 @@ struct Tracks
 
 struct OptMat
 {
-    std::shared_ptr<MaterialParams const> material;
+    std::shared_ptr<opt::MaterialParams const> material;
     std::shared_ptr<CerenkovParams const> cerenkov;
 };
 
@@ -108,11 +111,11 @@ OptMat read_material(std::istream& is)
     prop.refractive_index.x = verif::rdvec(is);
     prop.refractive_index.y = verif::rdvec(is);
     prop.refractive_index.vector_type = ImportPhysicsVectorType::free;
-    MaterialParams::Input input;
+    opt::MaterialParams::Input input;
     input.properties.push_back(std::move(prop));
     input.volume_to_mat = {OpticalMaterialId{0}};
     OptMat m;
-    m.material = std::make_shared<MaterialParams>(std::move(input));
+    m.material = std::make_shared<opt::MaterialParams>(std::move(input));
     m.cerenkov = std::make_shared<CerenkovParams>(m.material);
     return m;
 }
@@ -232,7 +235,7 @@ int main()
                 OptMat m = read_material(is);
                 double charge = rd(is);
                 double beta = rd(is);
-                MaterialView mv{m.material->host_ref(), OpticalMaterialId{0}};
+                opt::MaterialView mv{m.material->host_ref(), OpticalMaterialId{0}};
                 CerenkovDndxCalculator calc(
                     mv, m.cerenkov->host_ref(), units::ElementaryCharge{charge});
                 std::cout << "ok " << hex(calc(units::LightSpeed{beta})) << "\n";
@@ -245,7 +248,7 @@ int main()
                 is >> nphot;
                 dist.num_photons = nphot;
                 verif::ReplayEngine rng(verif::rdvec(is));
-                MaterialView mv{m.material->host_ref(), OpticalMaterialId{0}};
+                opt::MaterialView mv{m.material->host_ref(), OpticalMaterialId{0}};
                 CerenkovGenerator gen(mv, m.cerenkov->host_ref(), dist);
                 run_photons(gen, nphot, rng);
             }
@@ -263,7 +266,7 @@ int main()
                 pre.material = OpticalMaterialId{0};
                 Real3 pos = rd3(is);
                 verif::ReplayEngine rng(verif::rdvec(is));
-                MaterialView mv{m.material->host_ref(), OpticalMaterialId{0}};
+                opt::MaterialView mv{m.material->host_ref(), OpticalMaterialId{0}};
                 auto particle = tracks.particle(epost, pdgnum);
                 auto sim = tracks.sim(len);
                 CerenkovOffload off(
